@@ -1,0 +1,20 @@
+//! Verification hooks. Compiled only with `--cfg ordinals_ord_verif`; with the
+//! guard off this module does not exist and nothing else changes.
+//!
+//! Each submodule holds thin `pub` wrappers over crate-private items so that an
+//! external harness can drive them. Hooks that need items private to another
+//! module live in a guarded `verif` submodule of that module instead.
+#![allow(unused_imports, dead_code)]
+
+use super::*;
+
+pub mod builder;
+pub mod envelope;
+pub mod inscr;
+pub mod runes;
+pub mod sats;
+pub mod sched;
+pub mod server;
+pub mod storage;
+pub mod text;
+pub mod walletx;
